@@ -1,1 +1,15 @@
-def _p(): pass
+"""Witness predicates of the known findings (known_findings.json refers to them by name).
+A predicate receives the failed obligation record; it must identify the *specific* call site / input class,
+so that a different violation of the same property is still reported."""
+import re
+
+
+def rational_fit_path(o):
+    """D9: the obligation was generated on a run that went through Curve.fit_curve's rational branch
+    (weights not all absent): the task tags it rational, or its shape tag carries ',rat'."""
+    if o.get("tags", {}).get("rational") is True:
+        return True
+    if re.search(r",rat[,\]|]", o["id"]):
+        return True
+    w = o.get("witness") or {}
+    return bool(w.get("rational"))
